@@ -23,6 +23,18 @@ theorem accepted_is_new (cur : List CRule) (cfgs : List RuleCfg) (h : (setRules 
   unfold setRules at *
   split <;> simp_all
 
+/-- the installed list does not depend on the list it replaces: nothing of the old list (rule objects, targets,
+    compiled filters) survives an accepted reload — whatever the old list was (seeded change C02d kept the old rule
+    for every unchanged filter text) -/
+theorem new_list_forgets_old (cur cur' : List CRule) (cfgs : List RuleCfg) (h : (setRules conns cur cfgs).2 = true) :
+    (setRules conns cur cfgs).1 = (setRules conns cur' cfgs).1 ∧ (setRules conns cur' cfgs).2 = true := by
+  unfold setRules at *
+  split <;> simp_all
+
+/-- the empty list is a legal replacement (and a legal configuration): accepted, and it routes nothing -/
+theorem empty_list_accepted (cur : List CRule) : setRules conns cur [] = ([], true) := by
+  simp [setRules, compileAll]
+
 theorem compileAll_some (cfgs : List RuleCfg) (rs : List CRule) (h : compileAll conns cfgs = some rs) :
     rs.length = cfgs.length ∧ ∀ (i : Nat) (c : RuleCfg), cfgs[i]? = some c → ∃ r, rs[i]? = some r ∧ compileRule conns c = some r := by
   induction cfgs generalizing rs with
